@@ -289,14 +289,19 @@ def cmd_check(prop, tier):
         (binary, world, share, qruns, truns) = u[:5]
         if len(u) > 5:
             continue      # the peer file is part of the input of these worlds; their determinism is gated in-run (re-execution) and by fresh-process replay
-        n = max(8, (qruns if tier == "quick" else truns) // (40 if tier == "quick" else 100))
-        outs = []
-        for rep_i in range(2):
-            r = subprocess.run([os.path.join(bdir, binary), "trace", "--world", world, "--seed", str(seed), "--from", "0", "--count", str(n), "--tier", "0" if tier == "quick" else "1"],
+        n = min(2000, max(8, (qruns if tier == "quick" else truns) // (40 if tier == "quick" else 100)))
+        # both repetitions of every slice of the index range run concurrently, each in its own process
+        slices = max(1, min(WORKERS // 2, n // 8)); per = (n + slices - 1) // slices
+        def trace_slice(args):
+            frm, cnt = args
+            r = subprocess.run([os.path.join(bdir, binary), "trace", "--world", world, "--seed", str(seed), "--from", str(frm), "--count", str(cnt), "--tier", "0" if tier == "quick" else "1"],
                                stdout=subprocess.PIPE, stderr=subprocess.DEVNULL, text=True)
-            outs.append(r.stdout)
-            if r.returncode not in (0, 2):
-                pass  # a crashing run index ends the audit of this world early; both processes stop at the same place if deterministic
+            return r.stdout    # a crashing run index ends the audit of this slice early; both processes stop at the same place if deterministic
+        jobs = [(i * per, min(per, n - i * per)) for i in range(slices) if i * per < n]
+        import concurrent.futures
+        with concurrent.futures.ThreadPoolExecutor(max_workers=2 * len(jobs)) as ex:
+            res = list(ex.map(trace_slice, jobs + jobs))
+        outs = ["".join(res[:len(jobs)]), "".join(res[len(jobs):])]
         a, b = outs[0].splitlines(), outs[1].splitlines()
         det_runs += min(len(a), len(b))
         det_mismatch += sum(1 for x, y in zip(a, b) if x != y) + sum(1 for x in a if "MISMATCH" in x) + abs(len(a) - len(b))
@@ -370,8 +375,9 @@ def cmd_check(prop, tier):
                             workers=len(procs), budget_truncated_workers=truncated, reference_images_checked=len(ref_results), known_findings_hit=sorted(set(known_hit)), reported=reported, repo=REPO, build=os.path.basename(bdir)),
               assumptions=["sampled histories/images: a clean batch is evidence, not proof", "x86-64, g++ 12, libstdc++, ASan + selected UBSan checks at -O1",
                            "the harness's reference models and independent hashes are correct (hash self-test against published vectors at start-up)"])
-    os.makedirs(os.path.join(ROOT, "evidence"), exist_ok=True)
-    with open(os.path.join(ROOT, "evidence", prop + ".json"), "w") as f:
+    evdir = os.environ.get("VERIF_EVIDENCE_DIR", os.path.join(ROOT, "evidence"))   # overridden only when a seeded change is run against a scratch copy of the tree
+    os.makedirs(evdir, exist_ok=True)
+    with open(os.path.join(evdir, prop + ".json"), "w") as f:
         json.dump(ev, f, indent=1)
     shutil.rmtree(outdir, ignore_errors=True)
     log("%s %s: runs=%d steps=%d checks=%d distinct=%d violations=%d known=%d wall=%.1fs exit=%d" % (prop, tier, stats["runs"], stats["steps"], stats["checks"], len(plan_hashes), len(reported), len(set(known_hit)), wall, exit_code))
